@@ -41,10 +41,12 @@ theorem attach_ok (en es api : String) (a : ALevel) (h : a.ok) (prev : Option Me
   | some c => simp [attach, Gen.Errors.attachDropsFrames, ALevel.level, Metadata.init, hts]
 
 /-- The wrapper's re-raise hands the metadata on and leaves the exception attachable. -/
-theorem wrapperRethrow_some (md : Metadata) : wrapperRethrow ⟨some md, false⟩ = ⟨some md, false⟩ := by
-  simp [wrapperRethrow, Gen.Errors.toExceptionSetsPassThrough]
+theorem wrapperRethrow_some (hpt : Gen.Errors.toExceptionSetsPassThrough = false) (md : Metadata) :
+    wrapperRethrow ⟨some md, false⟩ = ⟨some md, false⟩ := by
+  simp [wrapperRethrow, hpt]
 
-theorem runEvents_accumulates (en es api : String) (rest : List (Option ALevel)) (md : Metadata)
+theorem runEvents_accumulates (hpt : Gen.Errors.toExceptionSetsPassThrough = false)
+    (en es api : String) (rest : List (Option ALevel)) (md : Metadata)
     (hr : ∀ a, some a ∈ rest → a.ok) :
     runEvents en es api (rest.map evOf) ⟨some md, false⟩ =
       some ⟨some ⟨md.stack ++ (rest.filterMap id).map (fun a => FrameInfo.ofOrigin a.siteOrigin), md.cause⟩, false⟩ := by
@@ -54,7 +56,7 @@ theorem runEvents_accumulates (en es api : String) (rest : List (Option ALevel))
     have hr' : ∀ a, some a ∈ rest → a.ok := fun a ha => hr a (List.mem_cons_of_mem _ ha)
     cases e with
     | none =>
-      simp only [List.map_cons, evOf, runEvents, wrapperRethrow_some]
+      simp only [List.map_cons, evOf, runEvents, wrapperRethrow_some hpt]
       rw [ih md hr']; simp
     | some a =>
       have ha := hr a (by simp)
